@@ -261,20 +261,33 @@ def write_tagged_field(
     buffer.write(encoded)  # data
 
 
+_epoch = datetime.datetime.fromtimestamp(0, datetime.UTC)
+_one_ms = datetime.timedelta(milliseconds=1)
+
+
+def _to_millis(value: datetime.timedelta) -> int:
+    # Integer arithmetic, rounding half to even like round().
+    quotient, remainder = divmod(value, _one_ms)
+    twice = 2 * remainder
+    if twice > _one_ms or (twice == _one_ms and quotient % 2 == 1):
+        quotient += 1
+    return quotient
+
+
 def write_error_code(buffer: Writable, error_code: ErrorCode) -> None:
     write_int16(buffer, error_code.value)
 
 
 def write_timedelta_i32(buffer: Writable, value: i32Timedelta) -> None:
-    write_int32(buffer, round(value.total_seconds() * 1000))  # type: ignore[arg-type]
+    write_int32(buffer, _to_millis(value))  # type: ignore[arg-type]
 
 
 def write_timedelta_i64(buffer: Writable, value: i64Timedelta) -> None:
-    write_int64(buffer, round(value.total_seconds() * 1000))  # type: ignore[arg-type]
+    write_int64(buffer, _to_millis(value))  # type: ignore[arg-type]
 
 
 def write_datetime_i64(buffer: Writable, value: datetime.datetime) -> None:
-    write_int64(buffer, round(value.timestamp() * 1000))  # type: ignore[arg-type]
+    write_int64(buffer, _to_millis(value - _epoch))  # type: ignore[arg-type]
 
 
 def write_nullable_datetime_i64(
@@ -284,4 +297,4 @@ def write_nullable_datetime_i64(
     if value is None:
         write_int64(buffer, -1)  # type: ignore[arg-type]
     else:
-        write_int64(buffer, round(value.timestamp() * 1000))  # type: ignore[arg-type]
+        write_int64(buffer, _to_millis(value - _epoch))  # type: ignore[arg-type]
